@@ -2,6 +2,7 @@ package main
 
 import (
 	"encoding/hex"
+	"sort"
 
 	"github.com/33cn/chain33/system/store/mavl"
 	"github.com/33cn/chain33/types"
@@ -202,4 +203,161 @@ func runRecorded(h *History) (*runner, *view) {
 		v.note(op, o)
 	}
 	return r, v
+}
+
+// ---------- re-execution stream ----------
+
+type update struct {
+	R  int
+	KV [][2]int
+}
+
+// genReexec: shapes the random streams almost never produce, on SMALL states (2-4 keys, so every
+// root has height <= 2 and none of its nodes is kept in the node cache):
+//   - the same update executed again after its rollback / after a restart (same root again);
+//   - a root that is read, or named as the parent of an update, BEFORE it exists (predicted through
+//     the foreign store, or seen in an execution that was rolled back) and committed afterwards;
+//   - an update that changes nothing (its root is the committed parent itself) and a competing
+//     update of the same parent while it waits;
+//   - an update requested on top of a root that is only pending, then the rollback of whatever
+//     came back and the commit of the pending root.
+// After every step: reads at every committed root and (half of the time) at every other root.
+func genReexec(rng *hlib.Rng, kind string, nops int) (*runner, *view) {
+	h := &History{Kind: kind, Prefix: rng.Chance(1, 3), Queue: rng.Chance(1, 2)}
+	tables(rng, h, rng.Range(2, 4))
+	r := newRunner(h)
+	v := newView()
+	content := map[int]map[int]int{0: {}, 1: {}} // token -> key index -> value index (as far as known)
+	var hist []update
+	step := func(op Op) Out {
+		op.H = int64(rng.Range(1, 4))
+		op.Sync = rng.Chance(1, 2)
+		o := r.do(op)
+		v.note(op, o)
+		if (op.T == "memset" || op.T == "set") && o.C == "root" {
+			if op.T == "memset" && len(op.KV) > 0 {
+				hist = append(hist, update{op.R, op.KV})
+			}
+			if base, ok := content[op.R]; ok {
+				if _, seen := content[o.Tok]; !seen {
+					m := map[int]int{}
+					for k, x := range base {
+						m[k] = x
+					}
+					for _, p := range op.KV {
+						m[p[0]] = p[1]
+					}
+					content[o.Tok] = m
+				}
+			}
+		}
+		return o
+	}
+	probe := func() { r.probeAll(rng, v, rng.Chance(1, 2)) }
+	for i := 0; i < nops; i++ {
+		switch x := rng.Intn(100); {
+		case x < 22: // a new update of a committed root
+			step(Op{T: "memset", R: hlib.Pick(rng, v.committed), KV: randKV(rng, h, 1, 2)})
+		case x < 42: // an earlier update once more
+			if len(hist) == 0 {
+				step(Op{T: "memset", R: hlib.Pick(rng, v.committed), KV: randKV(rng, h, 1, 2)})
+			} else {
+				u := hlib.Pick(rng, hist)
+				step(Op{T: "memset", R: u.R, KV: u.KV})
+			}
+		case x < 52: // a root that is asked for before it exists
+			kv := randKV(rng, h, 1, 2)
+			o := step(Op{T: "foreign", KV: kv})
+			probe()
+			if o.C == "root" {
+				if rng.Chance(1, 2) {
+					step(Op{T: "get", R: o.Tok})
+				} else {
+					step(Op{T: "memset", R: o.Tok, KV: randKV(rng, h, 1, 1)})
+				}
+				probe()
+			}
+			step(Op{T: "memset", R: rng.Intn(2), KV: kv})
+		case x < 64: // an update that changes nothing, and a competitor on the same parent
+			var pool []int
+			for _, t := range v.committed {
+				if len(content[t]) > 0 {
+					pool = append(pool, t)
+				}
+			}
+			if len(pool) == 0 {
+				step(Op{T: "set", R: hlib.Pick(rng, v.committed), KV: randKV(rng, h, 1, 2)})
+				break
+			}
+			p := hlib.Pick(rng, pool)
+			var kv [][2]int
+			for _, k := range sortedKeys(content[p]) {
+				if len(kv) == 0 || rng.Chance(1, 2) {
+					kv = append(kv, [2]int{k, content[p][k]})
+				}
+			}
+			step(Op{T: "memset", R: p, KV: kv})
+			if rng.Chance(2, 3) {
+				probe()
+				step(Op{T: "memset", R: p, KV: randKV(rng, h, 1, 2)})
+			}
+		case x < 78:
+			if len(v.pending) > 0 {
+				step(Op{T: "commit", R: hlib.Pick(rng, v.pending)})
+			} else {
+				step(Op{T: "memset", R: hlib.Pick(rng, v.committed), KV: randKV(rng, h, 1, 2)})
+			}
+		case x < 89:
+			if len(v.pending) > 0 {
+				step(Op{T: "rollback", R: hlib.Pick(rng, v.pending)})
+			} else {
+				step(Op{T: "set", R: hlib.Pick(rng, v.committed), KV: randKV(rng, h, 1, 2)})
+			}
+		case x < 96: // an update on top of a root that is only pending
+			var pool []int
+			for _, t := range v.pending {
+				if !has(v.committed, t) {
+					pool = append(pool, t)
+				}
+			}
+			if len(pool) == 0 {
+				step(Op{T: "memset", R: hlib.Pick(rng, v.committed), KV: randKV(rng, h, 1, 2)})
+				break
+			}
+			a := hlib.Pick(rng, pool)
+			o := step(Op{T: "memset", R: a, KV: randKV(rng, h, 1, 2)})
+			if o.C == "root" && rng.Chance(2, 3) {
+				probe()
+				step(Op{T: "rollback", R: o.Tok})
+			}
+			if rng.Chance(1, 2) {
+				probe()
+				step(Op{T: "commit", R: a})
+			}
+		default:
+			step(Op{T: "restart"})
+		}
+		probe()
+	}
+	for len(v.pending) > 0 && rng.Chance(5, 6) {
+		t := "commit"
+		if rng.Chance(1, 3) {
+			t = "rollback"
+		}
+		step(Op{T: t, R: hlib.Pick(rng, v.pending)})
+		probe()
+	}
+	step(Op{T: "restart"})
+	r.probeAll(rng, v, true)
+	return r, v
+}
+
+// (map iteration order must not reach the history)
+func sortedKeys(m map[int]int) []int {
+	var ks []int
+	for k := range m {
+		ks = append(ks, k)
+	}
+	sort.Ints(ks)
+	return ks
 }
